@@ -76,18 +76,23 @@ def nextSetAux (b : Bits) (lim : Nat) : Nat → Nat → Option Nat
 /-- naive `_fsm_find_next_set_bit`: the least set bit in `[i, lim)` -/
 def nextSet (b : Bits) (i lim : Nat) : Option Nat := nextSetAux b lim (lim - i) i
 
-/-- maximal runs of clear bits, by increasing offset (accumulator is reversed).
-    `cur = some st`: a run started at `st` is open. -/
-def runsL : List Bool → Nat → Option Nat → List Ext → List Ext
-  | [], i, some st, acc => ((st, i - st) :: acc).reverse
-  | [], _, none, acc => acc.reverse
-  | true :: bs, i, some st, acc => runsL bs (i + 1) none ((st, i - st) :: acc)
-  | true :: bs, i, none, acc => runsL bs (i + 1) none acc
-  | false :: bs, i, some st, acc => runsL bs (i + 1) (some st) acc
-  | false :: bs, i, none, acc => runsL bs (i + 1) (some i) acc
+/-- maximal runs of clear bits, by increasing offset (accumulator is reversed); `i` is the next bit to look at,
+    `cur = some st`: a run that started at `st` is open. The fuel is the number of bits left. -/
+def runsAux (b : Bits) : Nat → Nat → Option Nat → List Ext → List Ext
+  | 0, i, some st, acc => ((st, i - st) :: acc).reverse
+  | 0, _, none, acc => acc.reverse
+  | f + 1, i, cur, acc =>
+    if bit b i then
+      match cur with
+      | some st => runsAux b f (i + 1) none ((st, i - st) :: acc)
+      | none => runsAux b f (i + 1) none acc
+    else
+      match cur with
+      | some st => runsAux b f (i + 1) (some st) acc
+      | none => runsAux b f (i + 1) (some i) acc
 
 /-- what `_fsm_load_fsm_lw` extracts from a bitmap -/
-def runs (b : Bits) : List Ext := runsL b.toList 0 none []
+def runs (b : Bits) : List Ext := runsAux b b.size 0 none []
 
 /-! ## state -/
 
@@ -317,6 +322,18 @@ def updStats (h : Heur) (st : Stats) (len : Nat) : Stats :=
   let st := { st with num := st.num + 1, sum := st.sum + len }
   { st with var := st.var + h.varInc st len }
 
+/-- the branch of `_fsm_blk_allocate_lw` that uses the index entry `(o, l)` found for a request of `len` blocks -/
+def allocFound (h : Heur) (s : St) (len : Nat) (f : Flags) (o l : Nat) : St × Rc × Nat × Nat :=
+  let s := delFbk2 s o l
+  let attach := decide (l > len) && !f.noOver && decide (s.stats.num ≠ 0) && h.over s.stats (l - len)
+  let olen := if attach then l else len
+  let s := if l > len ∧ !attach then putFbk s (o + len) (l - len) else s
+  let (s, rc) := setBits s o olen true
+  if rc ≠ .ok then (s, rc, o, olen) else
+  let s := if f.noStats then s else { s with stats := updStats h s.stats len }
+  let s := if f.solid then ensureSize s ((o + olen) * bsz s) else s
+  (s, .ok, o, olen)
+
 /-- `_fsm_blk_allocate_lw`. `fuel` bounds the number of bitmap doublings.
     Result: state, code, offset, length. -/
 def allocLw (h : Heur) (s : St) (len hint : Nat) (f : Flags) : Nat → St × Rc × Nat × Nat
@@ -336,16 +353,7 @@ def allocLw (h : Heur) (s : St) (len hint : Nat) (f : Flags) : Nat → St × Rc 
       | rc => (s1, rc, off, len)
     else
       match findMatching s.tree hint len with
-      | some (o, l) =>
-        let s := delFbk2 s o l
-        let attach := decide (l > len) && !f.noOver && decide (s.stats.num ≠ 0) && h.over s.stats (l - len)
-        let olen := if attach then l else len
-        let s := if l > len ∧ !attach then putFbk s (o + len) (l - len) else s
-        let (s, rc) := setBits s o olen true
-        if rc ≠ .ok then (s, rc, o, olen) else
-        let s := if f.noStats then s else { s with stats := updStats h s.stats len }
-        let s := if f.solid then ensureSize s ((o + olen) * bsz s) else s
-        (s, .ok, o, olen)
+      | some (o, l) => allocFound h s len f o l
       | none =>
         if f.noExtend then (s, .noFree, hint, len)
         else
